@@ -40,6 +40,9 @@ type ReaderSpec struct {
 	ZeroAt int `json:"zeroAt,omitempty"`
 	// Step > 0: at most Step bytes per read (combined with any kind)
 	Step int `json:"step,omitempty"`
+	// EOFWithData: the read that delivers the last bytes also returns io.EOF
+	// (combined with any kind, e.g. a stream one byte longer than Size)
+	EOFWithData bool `json:"eofWithData,omitempty"`
 }
 
 // Case is one C05 case.
@@ -56,7 +59,7 @@ type Case struct {
 }
 
 var descMuts = []string{"exact", "exact", "exact", "wrongdigest", "neg1", "zero", "len-1", "len+1", "2len", "huge", "minint", "maxint",
-	"empty-digest", "nocolon", "badhexlen", "upperhex", "md5", "hex63", "hex65"}
+	"empty-digest", "nocolon", "badhexlen", "upperhex", "md5", "hex63", "hex65", "pathlike", "pathlike512"}
 // "bytesbuffer": the content sits in a *bytes.Buffer that the caller re-uses (resets
 // and refills) as soon as the push has returned
 var readerKinds = []string{"whole", "whole", "bytewise", "chunks", "zeroreads", "dataeof", "errat", "short", "long", "long", "corrupt", "bytesbuffer"}
@@ -110,6 +113,8 @@ func genCase(t *rapid.T) Case {
 	if rapid.IntRange(0, 3).Draw(t, "stepMode") == 0 {
 		c.Reader.Step = rapid.IntRange(1, 9).Draw(t, "step")
 	}
+	// any reader may hand over its last bytes together with io.EOF (as net/http bodies do)
+	c.Reader.EOFWithData = rapid.IntRange(0, 3).Draw(t, "eofWithData") == 0
 	if c.Sink == "limit" {
 		c.Limit = rapid.IntRange(-1, 1).Draw(t, "limit")
 	}
@@ -213,7 +218,7 @@ func (r *scriptReader) Read(p []byte) (int, error) {
 	}
 	copy(p, r.data[r.pos:r.pos+n])
 	r.pos += n
-	if r.spec.Kind == "dataeof" && r.pos == len(r.data) {
+	if (r.spec.Kind == "dataeof" || r.spec.EOFWithData) && r.pos == len(r.data) {
 		return n, io.EOF
 	}
 	return n, nil
@@ -282,6 +287,17 @@ func mutate(c Case, b []byte, mt string) (desc ocispec.Descriptor, valid bool) {
 		valid = strings.ToUpper(good.Encoded()) == good.Encoded()
 	case "md5":
 		desc.Digest = digest.Digest("md5:d41d8cd98f00b204e9800998ecf8427e")
+		valid = false
+	case "pathlike":
+		// right length, but path elements instead of hex: after path cleaning it
+		// would name the layout's own oci-layout file
+		tail := "../../oci-layout"
+		desc.Digest = digest.Digest("sha256:" + strings.Repeat("./", (64-len(tail))/2) + tail)
+		valid = false
+	case "pathlike512":
+		// a "sha512" digest that path-cleans to the sha256 blob of the content
+		tail := "../sha256/" + digest.FromBytes(b).Encoded()
+		desc.Digest = digest.Digest("sha512:" + strings.Repeat("./", (128-len(tail))/2) + tail)
 		valid = false
 	case "hex63":
 		desc.Digest = digest.Digest(string(good)[:len(good)-1])
